@@ -36,7 +36,103 @@ def control_c17():
     return True
 
 
-CONTROLS = [control_c17]
+class _patched(object):
+    """Temporarily replaces an attribute of a library class/module (in this process only, never on disk)."""
+
+    def __init__(self, owner, name, value):
+        self.owner, self.name, self.value = owner, name, value
+
+    def __enter__(self):
+        self.old = self.owner.__dict__[self.name]
+        setattr(self.owner, self.name, self.value)
+
+    def __exit__(self, *a):
+        setattr(self.owner, self.name, self.old)
+
+
+def _violations(res):
+    return res[1]
+
+
+def control_c12():
+    """With the incremental size bookkeeping of ArrayBase switched off the C12 explorer must report violations on
+    a toy vector, and none with the real code."""
+    from cryptoparser.common.base import ArrayBase
+    from mc import core
+    from mc.props import c12
+    ci = [i for i, c in enumerate(c12.vector_classes()) if c in c12._toys()][0]
+    clean = _violations(c12._worker((ci, 'small', 2)))
+    with _patched(ArrayBase, '_update_items_size', lambda self, del_item=None, insert_item=None: None):
+        broken = _violations(c12._worker((ci, 'small', 2)))
+    return len(broken) > len(clean)
+
+
+def control_c03():
+    """A TPKT parser that reports one byte too many must be caught by the C03 length clauses."""
+    from cryptoparser.tls import rdp
+    from mc import core
+    from mc.props import c03
+    qn = 'cryptoparser.tls.rdp.TPKT'
+    items = [it for it in c03.work_items(_FakeCtx()) if it[0] == qn][:2]
+    clean = []
+    for it in items:
+        clean += _violations(c03._worker(it))
+    real = rdp.TPKT.__dict__['_parse']
+
+    def bad(cls, parsable):
+        obj, n = real.__func__(cls, parsable)
+        return obj, n + 1
+    with _patched(rdp.TPKT, '_parse', classmethod(bad)):
+        broken = []
+        for it in items:
+            broken += _violations(c03._worker(it))
+    return len(broken) > len(clean)
+
+
+class _FakeCtx(object):
+    quick = True
+    seed = 0
+
+    def rotate(self, items):
+        return items
+
+
+def control_c10():
+    """A one-byte factory that maps an undefined code to a member must be caught by the C10 enumeration."""
+    from mc.props import c10
+    fs = c10.factories()
+    fi = [i for i, f in enumerate(fs) if f.get_byte_num() == 1][0]
+    f = fs[fi]
+    clean = _violations(c10._factory_worker((fi, 0, 256, False)))
+    real = f.__dict__.get('_parse') or [k.__dict__['_parse'] for k in f.__mro__ if '_parse' in k.__dict__][0]
+    owner = f if '_parse' in f.__dict__ else [k for k in f.__mro__ if '_parse' in k.__dict__][0]
+    first = list(f.get_enum_class())[0]
+
+    def bad(cls, parsable):
+        try:
+            return real.__func__(cls, parsable)
+        except Exception:  # noqa
+            return first, cls.get_byte_num()
+    with _patched(owner, '_parse', classmethod(bad)):
+        broken = _violations(c10._factory_worker((fi, 0, 256, False)))
+    return len(broken) > len(clean)
+
+
+def control_c11():
+    """A numeric composer that silently wraps out-of-range values must be caught by the C11 range clause."""
+    from cryptoparser.common.parse import ComposerBinary
+    from mc.props import c11
+    real = ComposerBinary.__dict__['_compose_numeric_array']
+
+    def bad(self, values, item_size):
+        return real(self, [v % (2 ** (8 * item_size)) for v in values], item_size)
+    clean = _violations(c11._range_worker(0))
+    with _patched(ComposerBinary, '_compose_numeric_array', bad):
+        broken = _violations(c11._range_worker(0))
+    return len(broken) > len(clean)
+
+
+CONTROLS = [control_c17, control_c12, control_c03, control_c10, control_c11]
 
 
 def run_all():
